@@ -582,6 +582,10 @@ func (dht *FullRT) GetClosestPeers(ctx context.Context, key string) ([]peer.ID, 
 					if _, ok := ipGroupCounts[ipGroup]; !ok {
 						ipGroupCounts[ipGroup] = make(map[peer.ID]struct{})
 					}
+					if _, counted := ipGroupCounts[ipGroup][p]; counted {
+						// another address of this peer in the same group
+						continue
+					}
 					if len(ipGroupCounts[ipGroup]) >= dht.ipDiversityFilterLimit {
 						// This ip group is already overrepresented, skip this peer
 						continue PeersLoop
